@@ -13,12 +13,15 @@ use emit_core::event::ToEvent;
 use emit_core::filter::Filter;
 use emit_core::runtime::Runtime;
 
-pub struct CountFilter { pub verdict: bool, pub calls: Cell<u32>, pub saw_a: Cell<i32> }
-impl CountFilter { pub fn new(v: bool) -> Self { CountFilter { verdict: v, calls: Cell::new(0), saw_a: Cell::new(-1) } } }
+pub struct CountFilter { pub verdict: bool, pub calls: Cell<u32>, pub saw_a: Cell<i32>, pub saw_b: Cell<i32>, pub saw_extent: Cell<bool> }
+impl CountFilter { pub fn new(v: bool) -> Self { CountFilter { verdict: v, calls: Cell::new(0), saw_a: Cell::new(-1), saw_b: Cell::new(-1), saw_extent: Cell::new(false) } } }
 impl Filter for CountFilter {
     fn matches<E: ToEvent>(&self, evt: E) -> bool {
+        let evt = evt.to_event();
         self.calls.set(self.calls.get() + 1);
-        self.saw_a.set(evt.to_event().props().pull::<i32, _>("a").unwrap_or(-1));
+        self.saw_a.set(evt.props().pull::<i32, _>("a").unwrap_or(-1));
+        self.saw_b.set(evt.props().pull::<i32, _>("b").unwrap_or(-1));
+        self.saw_extent.set(evt.extent().is_some());
         self.verdict
     }
 }
@@ -57,11 +60,14 @@ pub fn c01_q_macro_effective_filter() {
         else { emit::info!(rt: &rt, when: &cs, "text {a}", a: own_a); }
         assert!(cs.calls.get() == 1 && rt.filter().calls.get() == 0, "the call-site filter decides; the runtime's is not evaluated");
         assert!(cs.saw_a.get() == own_a, "the filter sees the event's own value first");
+        assert!(cs.saw_b.get() == 3, "the call-site filter sees the event exactly as destinations would: with the ambient properties");
+        assert!(cs.saw_extent.get() == has_now, "... and with the clock's reading as extent");
     } else {
         if form == 0 { emit::emit!(rt: &rt, "text {a}", a: own_a); }
         else { emit::info!(rt: &rt, "text {a}", a: own_a); }
         assert!(cs.calls.get() == 0 && rt.filter().calls.get() == 1, "without a call-site filter the runtime's decides");
         assert!(rt.filter().saw_a.get() == own_a);
+        assert!(rt.filter().saw_b.get() == 3 && rt.filter().saw_extent.get() == has_now, "the filter sees the fully built event");
     }
     let effective = if with_when { cs_verdict } else { rt_verdict };
     assert!(rt.emitter().calls.get() == if effective { 1 } else { 0 }, "emitted exactly once iff the effective filter accepts");
@@ -92,6 +98,8 @@ pub fn c01_q_macro_emit_evt_form() {
     let effective = if with_when { cs_verdict } else { rt_verdict };
     assert!(cs.calls.get() == if with_when { 1 } else { 0 });
     assert!(rt.filter().calls.get() == if with_when { 0 } else { 1 });
+    let f = if with_when { &cs } else { rt.filter() };
+    assert!(f.saw_a.get() == own_a && f.saw_b.get() == 3, "the effective filter sees own then ambient properties");
     assert!(rt.emitter().calls.get() == if effective { 1 } else { 0 });
     if effective { assert!(rt.emitter().a.get() == own_a && rt.emitter().b.get() == 3); }
     kani::cover!(with_when && !cs_verdict && rt_verdict, "call-site filter rejects although the runtime's would accept");
